@@ -324,6 +324,27 @@ class CallMixin:
         if isinstance(v, EnumV) and v.cls.qual == ci.qual:
             yield st, v
             return
+        if self.enum_by_index(ci):
+            vals = list(members.values())
+            if isinstance(v, StrV) or (self.pyconst(v) is not None and not isinstance(v, (Rec, Ref))):
+                c = v.s if isinstance(v, StrV) else self.pyconst(v)
+                if c in vals:
+                    yield st, EnumV(ci, self.intval(vals.index(c)))
+                else:
+                    yield st, RaiseV(self.exc("ValueError", f"not a valid {ci.name}"))
+                return
+            if isinstance(v, SymStr):
+                hits = [(i, x) for i, x in enumerate(vals) if isinstance(x, str)]
+                none = z3.And(*[v.term != self.str_id(x) for _, x in hits]) if hits else z3.BoolVal(True)
+                for i, x in hits:
+                    c = v.term == self.str_id(x)
+                    if self.feasible(st.pc, c):
+                        yield st.assume(c), EnumV(ci, self.intval(i))
+                if self.feasible(st.pc, none):
+                    yield st.assume(none), RaiseV(self.exc("ValueError", f"not a valid {ci.name}"))
+                return
+            yield st, RaiseV(self.exc("ValueError", f"not a valid {ci.name}"))
+            return
         if not self.is_num(v):
             c = self.pyconst(v) if not isinstance(v, (Rec, Ref, EnumV)) else None
             if isinstance(v, StrV) and v.s in members.values():
